@@ -5,7 +5,7 @@
    scheduling program, every fuel, and both ways the loop can end (idle / stopped). *)
 From Coq Require Import List ZArith.
 Import ListNotations.
-From TV Require Import Lib.Obs C38.Model C38.Spec C38.Monitor C38.Run C38.Proofs C38.Bounded.
+From TV Require Import Lib.Obs C38.Model C38.Spec C38.Monitor C38.Run C38.DeadlineProofs C38.Proofs C38.Bounded.
 Local Open Scope Z_scope.
 
 (* add_callback: at any end of the loop the callbacks that ran are a prefix of those scheduled, in
@@ -100,26 +100,66 @@ Theorem C38_future_state_matches_trace :
 Proof. exact future_state_matches_trace. Qed.
 Print Assumptions C38_future_state_matches_trace.
 
-(* run_sync, PARTIAL.  Full statement wanted: "run_sync returns the value the function's future was resolved
-   with, re-raises the exception it was resolved with (or that the function raised), or raises TimeoutError
-   after cancelling the future, and only when the timeout elapsed first".  Proved here: when the cell holds
-   the future f returned by the function, the result is exactly what the trace says about f (value v only if
-   f was resolved with v, exception y only if resolved with y, TimeoutError only after the timeout callback
-   ran and f is cancelled-or-unresolved).  NOT proved in general: that the cell is the function's outcome,
-   that TimeoutError implies f was actually cancelled, and the timing; these are checked by the monitor
-   sync_ok on every correspondence case and proved for the small scope below. *)
-Theorem C38_run_sync_result_partial :
-  forall b timeout fuel s e, run_loop fuel (init_sync b timeout) = (s, e) -> e <> OutOfFuel ->
-    forall f, cell s = Some (CUser f) ->
-      match sync_result_of s e with
-      | RRet (Some v) => In (ERs f 0 v) (ctr s)
-      | RExc (XUser y) => In (ERs f 1 y) (ctr s)
-      | RTimeout => tcalled s = true /\ (In (ERs f 2 0) (ctr s) \/ ~ resolved f (ctr s))
-      | RStopped | RIdle => tcalled s = false /\ (In (ERs f 2 0) (ctr s) \/ ~ resolved f (ctr s))
-      | _ => False
+(* run_sync, in full: at any end of the run (any program as the function, any timeout, any fuel) the function
+   (instance 0) ended exactly once, in a way x, and run_sync's result r is:
+     x = returned None            -> returns None
+     x = returned a non-awaitable -> raises BadYieldError
+     x = raised y                 -> re-raises y
+     x = returned future f        -> returns v   only if f was resolved with result v (ERs f 0 v in the trace),
+                                     re-raises y only if f was resolved with exception y,
+                                     raises TimeoutError only if a timeout was given and f is CANCELLED (ERs f 2 0:
+                                       every successful cancel is in the trace, the timeout's own included),
+                                     "stopped before completion" only if the program itself cancelled f,
+                                     is left idle only without a timeout and with f never resolved;
+   and (C38_add_future_callbacks_run_on_a_later_iteration) a future is resolved at most once, so the case is
+   determined by f's unique resolution.  Not stated: the wall-clock bound of the timeout. *)
+Theorem C38_run_sync_returns_result_reraises_or_times_out_after_cancelling :
+  forall b tm fuel s e, run_loop fuel (init_sync b tm) = (s, e) -> e <> OutOfFuel ->
+    let r := sync_result_of s e in
+    exists x, In (EEnd 0 x) (ctr s) /\ (forall x', In (EEnd 0 x') (ctr s) -> x' = x) /\
+      match x with
+      | EndNone => r = RRet None
+      | EndVal => r = RExc XBadYield
+      | EndRaise y => r = RExc y
+      | EndFut f =>
+          (exists v, r = RRet (Some v) /\ In (ERs f 0 v) (ctr s)) \/
+          (exists y, r = RExc (XUser y) /\ In (ERs f 1 y) (ctr s)) \/
+          (r = RTimeout /\ tm <> None /\ In (ERs f 2 0) (ctr s)) \/
+          (r = RStopped /\ e = Stopped /\ In (ERs f 2 0) (ctr s)) \/
+          (r = RIdle /\ e = Idle /\ tm = None /\ ~ resolved f (ctr s))
       end.
-Proof. exact run_sync_result_vs_trace. Qed.
-Print Assumptions C38_run_sync_result_partial.
+Proof. exact run_sync_result. Qed.
+Print Assumptions C38_run_sync_returns_result_reraises_or_times_out_after_cancelling.
+
+(* deadline forms.  datetime.timedelta normalisation (days may be negative, 0 <= seconds < 86400,
+   0 <= microseconds < 10^6) keeps the total, so total_seconds() is the real offset ... *)
+Theorem C38_timedelta_total_is_preserved_by_normalisation :
+  forall d s us, td_total_us (td_normalize d s us) = (d * 86400 + s) * 1000000 + us.
+Proof. exact td_normalize_total. Qed.
+Print Assumptions C38_timedelta_total_is_preserved_by_normalisation.
+
+(* ... whereas `seconds + microseconds/1e6` (seeded change C38_2) is right exactly when the normalised days are 0 *)
+Theorem C38_dropping_timedelta_days_is_wrong_iff_days_nonzero :
+  forall d s us, let '(d', s', us') := td_normalize d s us in
+    s' * 1000000 + us' = td_total_us (td_normalize d s us) <-> d' = 0.
+Proof. exact dropping_days_is_wrong. Qed.
+Print Assumptions C38_dropping_timedelta_days_is_wrong_iff_days_nonzero.
+
+(* every form of the call -- add_timeout(number), call_at(number), call_later(delay), add_timeout(timedelta(days, t)),
+   with any sign -- records and schedules (TimerHandle._when) exactly the absolute deadline it denotes; together with
+   the timeout theorems above: it runs not before that deadline and in the order of those deadlines. *)
+Theorem C38_every_deadline_form_schedules_the_requested_deadline :
+  forall fm t b s,
+    let dl := match fm with
+              | FAbs | FCallAt => t
+              | FLater => now s + t
+              | FDelta days => now s + days * 345600 + t
+              end in
+    exists s', exec_op (OTo fm t b) s = (s', false) /\
+      trace s' = ESt (next s) dl :: trace s /\
+      In (HUser (next s) (KTo dl) b) (heap s') /\ hwhen (HUser (next s) (KTo dl) b) = dl.
+Proof. exact timeout_call_schedules_requested_deadline. Qed.
+Print Assumptions C38_every_deadline_form_schedules_the_requested_deadline.
 
 (* the former finding, now fixed in /repo (call_at no longer clamps overdue deadlines): the witness program
    call_later(10, f), f = [add_timeout(T0+8, a); add_timeout(T0+5, b)] runs b before a. *)
